@@ -29,6 +29,8 @@ _ORIG_IDENT = _locking.IdentManager
 _ORIG_LOCK = _locking.Lock
 
 CTL = None          # the controller of the case being run in this process (one at a time)
+IN_SNAPSHOT = 0     # > 0 while a callback pickles / deep-copies the machine: contexts created then belong to the COPY
+                    # and are inert (no yield points, no events) - only the live machine's contexts are observed
 
 
 class Abort(BaseException):
@@ -179,6 +181,7 @@ class SLock(object):
     def __init__(self, cid=0):
         self.cid = cid
         self.owner = None       # worker index, or 'main'
+        self.inert = IN_SNAPSHOT > 0
 
     def __getstate__(self):
         return {'cid': self.cid}
@@ -186,6 +189,7 @@ class SLock(object):
     def __setstate__(self, st):
         self.cid = st['cid']
         self.owner = None
+        self.inert = True       # a restored copy is never part of the run
 
     def acquire(self, blocking=True, timeout=-1):
         self.__enter__()
@@ -200,6 +204,9 @@ class SLock(object):
     def __enter__(self):
         c = CTL
         t = _me()
+        if self.inert:
+            self.owner = 'copy'
+            return self
         if c is None or t is None:
             if self.owner is not None:
                 raise common.MachineryError('SLock %d taken outside a controlled run' % self.cid)
@@ -224,7 +231,7 @@ class SLock(object):
     def __exit__(self, *exc):
         c = CTL
         t = _me()
-        if c is None or t is None:
+        if c is None or t is None or self.inert:
             self.owner = None
             return False
         c.point()
@@ -238,11 +245,19 @@ class UCtx(object):
 
     def __init__(self, cid):
         self.cid = cid
+        self.inert = False
+
+    def __getstate__(self):
+        return {'cid': self.cid}
+
+    def __setstate__(self, st):
+        self.cid = st['cid']
+        self.inert = True
 
     def __enter__(self):
         c = CTL
         t = _me()
-        if c is not None and t is not None:
+        if c is not None and t is not None and not self.inert:
             c.point()
             c.emit((1, t, 2, self.cid))
         return self
@@ -250,7 +265,7 @@ class UCtx(object):
     def __exit__(self, *exc):
         c = CTL
         t = _me()
-        if c is not None and t is not None:
+        if c is not None and t is not None and not self.inert:
             c.point()
             c.emit((3, t, 2, self.cid))
         return False
@@ -262,9 +277,14 @@ class SIdent(_ORIG_IDENT):
     # the value lives in the instance __dict__ under the library's own key 'current' (so that code which works on
     # `self.__dict__`, e.g. a __getstate__, sees and touches the real thing); the class-level property only adds the
     # yield point on a foreign read
+    def __setstate__(self, st):
+        self.__dict__.update(st)
+        self.__dict__['inert'] = True       # a restored copy is never part of the run
+
     def _get(self):
         c = CTL
-        if c is not None and self.__dict__.get('current', 0) != threading.get_ident() and _me() is not None:
+        if c is not None and self.__dict__.get('current', 0) != threading.get_ident() and _me() is not None \
+                and not self.__dict__.get('inert'):
             c.point()          # silent yield: a foreign thread reads the owner
         return self.__dict__.get('current', 0)
 
@@ -276,20 +296,22 @@ class SIdent(_ORIG_IDENT):
     def __enter__(self):
         c = CTL
         t = _me()
-        if c is not None and t is not None:
+        live = c is not None and t is not None and not self.__dict__.get('inert')
+        if live:
             c.point()
         r = _ORIG_IDENT.__enter__(self)
-        if c is not None and t is not None:
+        if live:
             c.emit((1, t, 1, 0))
         return r
 
     def __exit__(self, exc_type, exc_val, exc_tb):
         c = CTL
         t = _me()
-        if c is not None and t is not None:
+        live = c is not None and t is not None and not self.__dict__.get('inert')
+        if live:
             c.point()
         r = _ORIG_IDENT.__exit__(self, exc_type, exc_val, exc_tb)
-        if c is not None and t is not None:
+        if live:
             c.emit((3, t, 1, 0))
         return r
 
